@@ -82,6 +82,40 @@ func (x *Exec) specType(sc *specScope, name string) types.Type {
 	if t := x.basicType(name); t != nil {
 		return t
 	}
+	// type parameters of the (instantiated) function under verification
+	if sc.fr != nil && !strings.ContainsAny(name, ".[*") {
+		fn := sc.fr.fn
+		for fn != nil {
+			if tps, tas := fn.TypeParams(), fn.TypeArgs(); tps.Len() > 0 && len(tas) == tps.Len() {
+				for i := 0; i < tps.Len(); i++ {
+					if tps.At(i).Obj().Name() == name {
+						return tas[i]
+					}
+				}
+			}
+			fn = fn.Parent()
+		}
+	}
+	// instantiated generic type: Name[Arg, Arg]
+	if i := strings.Index(name, "["); i > 0 && strings.HasSuffix(name, "]") && !strings.HasPrefix(name, "*") {
+		base := x.specType(sc, name[:i])
+		if base == nil {
+			return nil
+		}
+		var targs []types.Type
+		for _, a := range splitTop(name[i+1:len(name)-1], ',') {
+			ta := x.specType(sc, strings.TrimSpace(a))
+			if ta == nil {
+				return nil
+			}
+			targs = append(targs, ta)
+		}
+		inst, err := types.Instantiate(nil, base, targs, false)
+		if err != nil {
+			return nil
+		}
+		return inst
+	}
 	if strings.HasPrefix(name, "*") {
 		et := x.specType(sc, name[1:])
 		if et == nil {
@@ -100,6 +134,8 @@ func (x *Exec) specType(sc *specScope, name string) types.Type {
 }
 
 func (x *Exec) evalSpec(sc *specScope, e Expr) Value {
+	x.inSpec++
+	defer func() { x.inSpec-- }()
 	v := x.evalSpec0(sc, e, nil)
 	return v
 }
